@@ -12,3 +12,7 @@
 (0 (1000 1 0) ((9 0 5 5) (9 1 7 8) (7 (0 1)) (6) (1 0 1) (1 1 1) (2 1 0) (1 0 1) (1 1 2)))
 ; trimming by parallelrecoverymaxrecords
 (0 (4 5 0) ((9 2 10 20) (7 (2)) (6) (1 2 8)))
+; a late request of partition 5 re-assigns the client; a straggler of the previous assignment of partition 3 (ahead of the new position) arrives, then the fresh records
+(0 (1000000 50 0) ((7 (3 5)) (9 3 100 200) (6) (1 3 11) (9 5 40 60) (6) (13 3 2) (1 3 105) (1 5 25)))
+; straggler without any refresh in between
+(0 (1000 7 0) ((9 1 10 20) (7 (1)) (6) (1 1 3) (13 1 1) (1 1 12)))
